@@ -237,6 +237,9 @@ func (e *Engine) VerifyFunc(fn *ssa.Function, fc *FuncContract) (res *FuncResult
 			}
 		}
 		for _, a := range fc.Asserts {
+			if a.Anchor == "send" && !f.assertsHit[a.Anchor+"|"+a.Text] {
+				f.bail("bind-error: assert at send %q: %s sends on no channel", a.Text, fn.Name())
+			}
 			if strings.HasPrefix(a.Anchor, "call ") && !f.assertsHit[a.Anchor+"|"+a.Text] {
 				f.bail("bind-error: assert at %s %q: no such call site in %s", a.Anchor, a.Text, fn.Name())
 			}
